@@ -108,8 +108,57 @@ fn go(rt: &dyn Runtime, base: &dyn Runtime, ops: &[J], sc: &J) -> J {
     }
 }
 
+fn scalar_from(j: &J) -> ScalarCow<'static> {
+    let kind = j.get("kind").and_then(|k| k.as_str()).unwrap_or("i64");
+    let bits = j.get("bits").and_then(|b| b.as_u64()).unwrap_or(0);
+    match kind {
+        "i64" => ScalarCow::new(bits as i64),
+        "f64" => ScalarCow::new(f64::from_bits(bits)),
+        "bool" => ScalarCow::new(bits & 1 == 1),
+        _ => ScalarCow::new(j.get("text").and_then(|t| t.as_str()).unwrap_or("").to_owned()),
+    }
+}
+
+fn ord_str(o: Option<std::cmp::Ordering>) -> &'static str {
+    match o {
+        Some(std::cmp::Ordering::Less) => "lt",
+        Some(std::cmp::Ordering::Equal) => "eq",
+        Some(std::cmp::Ordering::Greater) => "gt",
+        None => "none",
+    }
+}
+
+fn scalar_rel(sc: &J) -> J {
+    let a = scalar_from(&sc["a"]);
+    let b = scalar_from(&sc["b"]);
+    let va = Value::Scalar(a.clone());
+    let vb = Value::Scalar(b.clone());
+    let ca = liquid_core::model::ValueCow::Borrowed(&va);
+    let cb = liquid_core::model::ValueCow::Borrowed(&vb);
+    let n = Value::Nil;
+    json!({"outcome": "ok",
+        "eq_ab": a == b, "eq_ba": b == a, "ne_ab": a != b, "lt_ab": a < b, "gt_ab": a > b, "le_ab": a <= b, "ge_ab": a >= b,
+        "lt_ba": b < a, "gt_ba": b > a, "le_ba": b <= a, "ge_ba": b >= a,
+        "cmp_ab": ord_str(a.partial_cmp(&b)), "cmp_ba": ord_str(b.partial_cmp(&a)),
+        "eq_aa": a == a.clone(), "cmp_aa": ord_str(a.partial_cmp(&a.clone())),
+        "value_eq_ab": va == vb, "value_eq_ba": vb == va, "cow_eq_ab": ca == cb, "cow_value_eq": ca == vb,
+        "nil_eq_a": n == va, "a_eq_nil": va == n, "nil_eq_nil": n == Value::Nil})
+}
+
+fn vec_index(sc: &J) -> J {
+    use liquid_core::model::ArrayView;
+    let len = sc.get("len").and_then(|l| l.as_u64()).unwrap_or(0) as usize;
+    let idx = sc.get("idx").and_then(|l| l.as_i64()).unwrap_or(0);
+    let v: Vec<i64> = (0..len).map(|i| 100 + i as i64).collect();
+    let got = ArrayView::get(&v, idx).and_then(|x| x.as_scalar()).and_then(|s| s.to_integer());
+    json!({"outcome": "ok", "get": got, "contains_key": ArrayView::contains_key(&v, idx), "size": ArrayView::size(&v),
+        "first": ArrayView::first(&v).is_some(), "last": ArrayView::last(&v).is_some()})
+}
+
 pub fn run(kind: &str, sc: &J) -> J {
     match kind {
+        "scalar_rel" => scalar_rel(sc),
+        "vec_index" => vec_index(sc),
         "stack" => {
             let globals = to_obj(sc.get("globals"));
             let rt = RuntimeBuilder::new().set_globals(&globals).build();
